@@ -35,7 +35,7 @@ PROPS = {
                 "must equal their snapshots at that and every later step. Distinct/non-trivial as for C11.",
         "probes": ["C09.controlled_rotation_near_2pi", "C09.merge_or_cancel_happened", "C09.reindex_with_gaps",
                    "C09.split_multiple_parts", "C09.same_object_both_sides", "C09.stack_same_circuit_twice",
-                   "C09.equal_controlled_rotations_compared"],
+                   "C09.equal_controlled_rotations_compared", "C09.trim_trivial_removed_qubits"],
         "components_real": ["tangelo.linq.Gate (inverse, ==)", "tangelo.linq.Circuit and module-level passes",
                             "decompose_gate_to_cliffords"],
         "components_stub": [],
@@ -69,7 +69,8 @@ PROPS = {
                 "Counter model compared after every step, grouping checked as exact partition + assembled == term-by-term value "
                 "from the same histograms. Distinct = pool signature (bit length, #keys, total/10 per histogram); non-trivial = "
                 "run with >=3 steps touching >=2 histograms or >=1 refusal/biased draw.",
-        "probes": ["C18.RandomState(None)_served", "C18.same_histogram_twice", "C18.marginalise_untouched_qubits", "C18.identity_term_grouped"],
+        "probes": ["C18.RandomState(None)_served", "C18.same_histogram_twice", "C18.marginalise_untouched_qubits", "C18.identity_term_grouped",
+                   "C18.histograms_in_other_order_than_groups", "C18.n_multiple_of_chunk_size"],
         "components_real": ["Histogram, aggregate_histograms, filter_hist", "post_select, strip_post_selection, split_frequency_dict, "
                             "split_frequency_dict_for_last_n_digits", "get_resampled_frequencies + scipy.stats.rv_discrete",
                             "group_qwc, map_measurements_qwc, exp_value_from_measurement_bases + openfermion clique cover"],
@@ -109,7 +110,8 @@ PROPS = {
                 "exactly, 6.5 sigma otherwise, extreme draw vectors); n_shots mutated between calls; earlier calls repeated later with the "
                 "same seed must return the same result. Distinct = (mode, backend, width, size class, initial state?, bias) tuples; "
                 "non-trivial = run with >=3 calls on >=2 backends or >=1 biased draw.",
-        "probes": ["C01.point_mass_sampled", "C01.same_call_repeated_after_other_calls"],
+        "probes": ["C01.point_mass_sampled", "C01.same_call_repeated_after_other_calls", "C01.circuit_object_reused",
+                   "C01.circuit_object_modified_in_place_between_calls", "C01.n_shots_multiple_of_chunk_size"],
         "components_real": ["Backend.simulate, CirqSimulator, SympySimulator, translate_c_to_cirq / _sympy, _statevector_to_frequencies + scipy rv_discrete, cirq, sympy"],
         "components_stub": ["ShotOnlyDevice(Backend): reference simulator + multinomial draw from the seam; nothing is concluded about a real device"],
         "assumptions": _TRUST,
@@ -125,7 +127,8 @@ PROPS = {
                 "estimate / variance / standard error recounted exactly from the recorded histograms, plus seeded 6.5 sigma closeness "
                 "to the exact value; documented refusals provoked. Distinct = (quantity, backend, width, complex?, mixed?, desired?, "
                 "initial state?, #terms) tuples; non-trivial = run with >=3 calls on >=2 backends or >=1 refusal.",
-        "probes": ["C02.exact_recount_from_recorded_histograms", "C02.complex_two_pass_recount"],
+        "probes": ["C02.exact_recount_from_recorded_histograms", "C02.complex_two_pass_recount", "C02.operator_object_reused",
+                   "C02.operator_object_modified_in_place_between_calls", "C02.circuit_object_reused"],
         "components_real": ["Backend.get_expectation_value / get_variance / get_standard_error and the private routes behind them, "
                             "measurement_basis_gates, translate_operator, CirqSimulator.expectation_value_from_prepared_state, SympySimulator"],
         "components_stub": ["ShotOnlyDevice(Backend) (frequency route with statevector_available=False)"],
